@@ -136,7 +136,11 @@ fn first_diff(g: &Group22, flips: &[(String, String)], a: &Trace, b: &Trace) -> 
         }
         i += 1;
     }
-    let differing: Vec<(u32, u16)> = differing.into_iter().filter(|d| anc.contains(&d.1)).collect();
+    // the taps on the inputs of binary operators only serve the coverage guard: an input that is not pulled in a
+    // tick (lazily short-circuited, or dropped by a defect downstream) shows there first, but the operator to name
+    // is the one that consumed it
+    let is_intap = |s: u16| g.sinks.iter().find(|k| k.site == s).map(|k| k.between.first().map(|b| b.1 == "intap").unwrap_or(false)).unwrap_or(false);
+    let differing: Vec<(u32, u16)> = differing.into_iter().filter(|d| anc.contains(&d.1) && (!is_intap(d.1) || d.1 == first_sink)).collect();
     let &(tick, _) = differing.first()?;
     let now: Vec<u16> = differing.iter().filter(|d| d.0 == tick).map(|d| d.1).collect();
     let root = now
